@@ -939,6 +939,8 @@ REGRESS = {
     "match-wildcard-in-compatibility-spelling": ["(match v %WILD% 1)", "(match v (foo 1 %WILD%) 2)",
                                                  "(match v [#* %WILD%] 1)", '(match v {"k" %WILD%} 3)'],
     "match-mapping-rest-wildcard": ['(match m {"k" x #** _} 1)', "(match m {#** _} 1)", '(match m {"k" x #** %WILD%} 1)'],
+    "match-as-wildcard": ["(match a [1 b] :as _ 2)", "(match a [1 b] :as %WILD% 2)", "(match a 1 :as _ 2)",
+                          "(match a (foo x) :as _ :if x 2)"],
     "match-mapping-without-rest-in-comprehension": ['(lfor x [(match d {"k" a} 1)] x)',
                                                     '(gfor x [(match d {"k" a "j" b} 1)] x)'],
     "comprehension-part-without-expression": ["(lfor x y %EMPTY%)", "(lfor x %EMPTY% x)", "(lfor x y :if %EMPTY% x)",
@@ -1003,8 +1005,63 @@ def regress_corpus():
     return _regress_cache
 
 
+_clause_cache = []
+CLAUSE_HOSTS = ["%W%", "(setv r %W%)", "(f %W%)", "(fn [] %W%)"]
+
+
+def empty_clause_corpus():
+    """[(key, ir)]: `try` with every combination of absent / empty / non-empty body, 0-2
+    `except` clauses (specs [] [E] [e E] [[E K]], bodies absent / empty-compiling / present),
+    `else` and `finally` (absent, no forms, forms compiling to nothing, forms), and the
+    analogous empty-clause shapes of while, for, with, cond, when, match, defclass, if, fn,
+    defn, let; each alone and in three host forms. Deterministic; dealt to the shards."""
+    if _clause_cache:
+        return _clause_cache
+    import hy  # noqa: F401
+    from hy.reader import read_many
+    texts = []
+    specs = ["[]", "[E]", "[e E]", "[[E K]]"]
+    ebodies = ["", " 1", " (do)"]
+    one = [f"(except {sp}{b})" for sp in specs for b in ebodies]
+    excepts = [""] + one + [c + " (except [K] 2)" for c in one] + [f"(except [E] 1) (except {sp})" for sp in specs]
+    for body in ["", "x", "(do)"]:
+        for ex in excepts:
+            for el in ["", "(else)", "(else 1)", "(else (do))"]:
+                for fin in ["", "(finally)", "(finally y)", "(finally (do))"]:
+                    texts.append(("try", " ".join(p for p in ["(try", body, ex, el, fin] if p) + ")", False))
+    others = {
+        "while": ["(while c)", "(while c (else))", "(while c (else 1))", "(while c (do))", "(while c (do) (else (do)))",
+                  "(while (do) 1)", "(while c 1 (else))", "(while c (break) (else (do)))"],
+        "for": ["(for [x y])", "(for [x y] (else))", "(for [x y] 1 (else))", "(for [x y] (else (do)))", "(for [] (else))",
+                "(for [] 1)", "(for [] (else 1))", "(for [x y] (do) (else))", "(for [:async x y] (else))"],
+        "with": ["(with [] 1)", "(with [])", "(with [(f)])", "(with [a (f)])", "(with [a (f)] (do))",
+                 "(with [:async a (f)])", "(with [a (f) b (g)])", "(with [(do)] 1)"],
+        "cond": ["(cond)", "(cond a (do))", "(cond (do) 1)", "(cond a 1 b (do))"],
+        "when": ["(when c)", "(when c (do))", "(when (do))"],
+        "match": ["(match x)", "(match (do))", "(match x y (do))", "(match x _ (do))", "(match x 1 (do) _ (do))",
+                  "(match x y :if (do) 1)"],
+        "defclass": ["(defclass foo)", "(defclass foo [])", "(defclass foo [] (do))", '(defclass foo [] "doc")',
+                     "(defclass foo [] (eval-when-compile 1))", '(defclass foo [] "doc" (do))', "(defclass [] foo)"],
+        "if": ["(if c (do) (do))", "(if c (do) 1)", "(if c 1 (do))", "(if (do) 1 2)", "(if True (do) 1)",
+               "(if False 1 (do))", "(if None (do) (do))", "(if c (eval-when-compile 1) (pragma :warn-on-core-shadow False))",
+               "(if c (do (setv z 1)) (do))", "(if c (do) (do (setv z 1)))"],
+        "fn": ["(fn [])", "(fn [] (do))", "(defn f [])", "(defn f [] (do))", '(defn f [] "doc")', "(fn :async [] (do))",
+               "(defn [] f [])"],
+        "let": ["(let [])", "(let [] (do))", "(let [a 1])", "(let [a (do)] a)", "(do)", "(do (do) (do))"],
+    }
+    for key, ts in others.items():
+        texts.extend((key, t, True) for t in ts)
+    for key, t, hosted in texts:
+        for h in (CLAUSE_HOSTS if hosted else CLAUSE_HOSTS[:2]):
+            forms = list(read_many(h.replace("%W%", t), filename="<clauses>"))
+            _clause_cache.append(("empty-clause:" + key, finish(enc(forms[0]), 5)))
+    return _clause_cache
+
+
 def regress_keys():
-    return sorted(set(REGRESS) | {"fcomponent-without-value"})
+    return sorted(set(REGRESS) | {"fcomponent-without-value"} |
+                  {"empty-clause:" + k for k in ("try", "while", "for", "with", "cond", "when", "match", "defclass",
+                                                 "if", "fn", "let")})
 
 
 # ---------------------------------------------------- C10: shape signature
